@@ -270,3 +270,51 @@ def walk_flat(tree, *flat_fns):
             n = repl[id(n)]
         yield n
         st.extend(ast.iter_child_nodes(n))
+
+
+def instance_table(cls, attr):
+    """the dict literal `self.<attr> = {...}` assigned exactly once in the class (in __init__) and never mutated / rebound anywhere in it, else None"""
+    init = methods(cls).get('__init__')
+    if init is None:
+        return None
+    lits = []
+    for m_ in methods(cls).values():
+        for n in ast.walk(m_):
+            if isinstance(n, ast.Attribute) and n.attr == attr and isinstance(n.value, ast.Name) and n.value.id == 'self':
+                p_ = getattr(n, '_parent', None)
+                if isinstance(n.ctx, (ast.Store, ast.Del)):
+                    if m_ is init and isinstance(p_, ast.Assign) and len(p_.targets) == 1 and isinstance(p_.value, ast.Dict):
+                        lits.append(p_.value)
+                    else:
+                        return None
+                elif isinstance(p_, ast.Subscript) and isinstance(p_.ctx, (ast.Store, ast.Del)):
+                    return None
+                elif isinstance(p_, ast.Attribute) and p_.attr in ('update', 'pop', 'popitem', 'clear', 'setdefault', '__setitem__', '__delitem__'):
+                    return None
+    return lits[0] if len(lits) == 1 else None
+
+
+def table_callees(cls, fn, call):
+    """call is `f(...)` with f a local bound exactly once in fn, by `f = self.<T>.get(K[, None])` or `f = self.<T>[K]`, T an instance table of
+    the class (instance_table): -> [(key node, value node)] - the callees f can denote, each under K == key - else None"""
+    if not isinstance(call.func, ast.Name):
+        return None
+    f = call.func.id
+    defs = [n for n in walk_local(fn) if isinstance(n, ast.Assign) and any(isinstance(x, ast.Name) and x.id == f for t in n.targets for x in ast.walk(t))]
+    others = [n for n in walk_local(fn) if isinstance(n, ast.Name) and n.id == f and isinstance(n.ctx, (ast.Store, ast.Del))]
+    if len(defs) != 1 or len(others) != 1 or len(defs[0].targets) != 1 or not isinstance(defs[0].targets[0], ast.Name):
+        return None
+    v = defs[0].value
+    tab = None
+    if isinstance(v, ast.Call) and isinstance(v.func, ast.Attribute) and v.func.attr == 'get' and 1 <= len(v.args) <= 2 and not v.keywords:
+        if len(v.args) == 2 and not (isinstance(v.args[1], ast.Constant) and v.args[1].value is None):
+            return None
+        tab = v.func.value
+    elif isinstance(v, ast.Subscript):
+        tab = v.value
+    if not (isinstance(tab, ast.Attribute) and isinstance(tab.value, ast.Name) and tab.value.id == 'self'):
+        return None
+    lit = instance_table(cls, tab.attr)
+    if lit is None or any(k is None for k in lit.keys):
+        return None
+    return list(zip(lit.keys, lit.values))
